@@ -37,7 +37,7 @@ ASSUMPTIONS = ["the two data files emptied by the environment (SimSun_bad_len9, 
                "quick checks shipped data up to length 6, thorough every length"]
 REQUIRED = ["env.shards_with_other_hashseed", "calls.write_bisc_files", "calls.read_bisc_file", "calls.PinWords.store_dfa_for_perm", "calls.PinWords.load_dfa_for_perm",
             "history.overwrites", "history.malformed_reads", "history.reads_decided", "dfa.loads_decided", "shipped.blocks_verified",
-            "shipped.files", "audit.open_events", "emptied_files.reported_invalid", "faults.injected", "dfa.threaded_rounds", "aliasing.read_results_mutated", "history.convention_change_sequences", "history.shipped_names_missing"]
+            "shipped.files", "audit.open_events", "emptied_files.reported_invalid", "faults.injected", "dfa.threaded_rounds", "aliasing.read_results_mutated", "history.convention_change_sequences", "history.shipped_names_missing", "history.raw_writes_long_perms", "dfa.nonpin_perms_in_pool"]
 MIN_NONTRIVIAL = 60
 CTX = None
 MON = None
@@ -188,6 +188,20 @@ def chk_files(ctx, ops, prepopulate):
                            and not os.path.realpath(p).startswith(os.path.realpath(tmp) + os.sep)]
                 if outside:
                     report("files", [ops, prepopulate], f"write_bisc_files({n}, {propname}, {name!r}) wrote outside the working directory: {outside}")
+            elif kind == "write_raw":
+                # a sparse data set with long permutations, written with the module's own low-level writer
+                _, name, gb, n, lengths, rseed = op
+                import random as _random
+
+                r2 = _random.Random(rseed)
+                data = {L: [Perm(r2.sample(range(L), L)) for _ in range(r2.randint(0, 3))] for L in lengths}
+                key = f"{name}_{gb}_len{n}"
+                with quiet():
+                    BM.write_json_to_file(data, key + ".json")
+                if key in model:
+                    overwrote = True
+                model[key] = {L: [tuple(q) for q in v] for L, v in data.items()}
+                ctx.count("history.raw_writes_long_perms")
             elif kind == "read":
                 _, name, gb, n = op
                 key = f"{name}_{gb}_len{n}"
@@ -482,11 +496,22 @@ def run(ctx, spec):
             if rng.random() < 0.5:
                 ops += [["write", 2, "av231", ship], ["read", ship, "good", 8], ["read", ship, "good", 2]]
             ctx.count("history.shipped_names_missing")
+        if rng.random() < 0.4:
+            name, n = rng.choice(names), rng.choice([10, 11, 12, 13])
+            gb = rng.choice(["good", "bad"])
+            ops += [["write_raw", name, gb, n, sorted(rng.sample([0, 1, 3, 9, 10, 11, 12, 13], rng.randint(2, 5))), rng.randrange(10 ** 9)], ["read", name, gb, n]]
         pre = rng.random() < 0.3
         if pre:
             ops += [["read", "zz", "good", 2], ["read", "stale", "good", 3]]
         chk_files(ctx, ops, pre)
     pool = [list(t) for k in (1, 2, 3) for t in C.all_perms(k)] + [[1, 3, 0, 2], [0, 1, 2, 3], [2, 0, 3, 1]]
+    if spec.get("dfa"):
+        # permutations that are the permutation of NO pin word (their automaton accepts nothing); they exist from length 6 on
+        from ..oracle import pins as PO
+
+        nonpin6 = [list(t) for t in C.all_perms(6) if t not in PO.pin_perms(6)]
+        pool += rng.sample(nonpin6, 2)
+        ctx.count("dfa.nonpin_perms_in_pool")
     for _ in range(spec["dfa"]):
         ops = []
         for _ in range(rng.randint(3, 9)):
